@@ -12,6 +12,9 @@ CHECKS = {
  "C07": ("exploration", "property-based testing: generated predict/update sequences vs dense f64 textbook Kalman filter; exact cost/gate relations",
          "Generated measurement sequences (<=300 steps, seven motion modes) compared step by step with an independent dense f64 filter: mean, covariance (symmetry, SPD by f64 Cholesky, entries), distance against the filter's own state and against the reference; stationary objects; vector filter bit-equal to point filters; cost conversions exact for every generated d incl. +-3 ulp around each chi-square entry.",
          "Tolerances >= 5x measured f32 drift inside the regular envelope (height within x10, <=3 predict-only steps in a row). Outside it only finiteness/SPD/no-panic are asserted and D10 is a listed known finding.", "3/C07"),
+ "C11": ("fault_enumeration", "property-based testing + exhaustive fault injection: every callback position of every generated case fails once; pre/post state comparison and sequential track model",
+         "For each generated (tracks, operation) case a fault-free run numbers the user-callback invocations (attribute update, attribute merge, optimise per class); then every position is replayed failing, on add_observation, Track::merge, store.add, merge_external and merge_owned. Failure => state equals the pre-state in attributes, observations of every class, metric state and merge history, zero notifications, both tracks still stored; success => exactly one notification and the state of the sequential model (merge history = previous ++ source once).",
+         "Harness callbacks leave half-applied changes behind before failing, so a missing restore is visible. Metric state is observed through a follow-up optimise call. Class lists without duplicates.", "3/C11"),
  "C14": ("exploration", "property-based testing: validity predicate over NMS output with independent coverage oracle; idempotence",
          "Generated clustered/duplicated/nested/rotated lists with score modes and thresholds; the output must be references into the input, valid, filter-passing, rank-ordered, top-ranked first, no kept box covered beyond the threshold by a higher-ranked kept box, every dropped box so covered by one, and a second application is the identity.",
          "Coverage computed with oracle/geom.rs; band 2e-4 around the nms threshold and score==threshold accept either outcome.", "3/C14"),
